@@ -25,18 +25,25 @@
 #include "stack_tsan.h"
 #endif
 #include "wfstack.c"
+
+/* C17 operation kinds; own scheduling points: push = MB XCHG ST; __pop_all = XCHG MB;
+ * pop_nonblocking = LD LD CAS MB; next_nonblocking = LD; empty = LD */
+enum { K_PUSH, K_POPALL, K_POP_NB, K_NEXT_NB, K_EMPTY };
+static const char *kname[] = { "push", "pop_all", "pop_nonblocking", "next_nonblocking", "empty" };
+static const unsigned long kbound[] = { 3, 2, 4, 1, 1 };
+static const int kwaitfree[] = { 1, 1, 1, 1, 1 };
+#define STACK_C17
 #include "stack_oracle.h"
 
 #define MAXN 48
 static struct cds_wfs_stack stk;
 static struct wnode { struct cds_wfs_node n; } nodes[MAXN];
 static int pool_free[MAXN];
-static int nnodes = 8, npushers = 2, npoppers = 1, nops = 12, scheme = SCH_MUTEX, c17;
+static int nnodes = 8, npushers = 2, npoppers = 1, nops = 12, scheme = SCH_MUTEX;
 static int running_others;		/* threads other than the drainer still running */
 static int drainer_tid;
 static int inflight_push;		/* threads between CALL push and RET push */
 static unsigned long push_activity;
-static unsigned long solo_runs, solo_max[8];
 
 static int nid(struct cds_wfs_node *n) { return (int)((struct wnode *)n - nodes); }
 
@@ -68,43 +75,6 @@ static void free_node(struct cds_wfs_node *n)
 	pool_free[nid(n)] = 1;
 }
 
-/* ---- C17: solo runs ----------------------------------------------------------------------- */
-enum { K_PUSH, K_POPALL, K_POP_NB, K_NEXT_NB, K_EMPTY };
-static const char *kname[] = { "push", "pop_all", "pop_nonblocking", "next_nonblocking", "empty" };
-/* own scheduling points: push = MB XCHG ST; __pop_all = XCHG MB; pop_nonblocking = LD LD CAS MB;
- * next_nonblocking = LD; empty = LD */
-static const unsigned long kbound[] = { 3, 2, 4, 1, 1 };
-static unsigned long solo_s0, solo_r0;
-static int solo_on;
-
-static void solo_begin(void)
-{
-	int i;
-	solo_on = 0;
-	if (!c17 || vrt_rand() % 3) return;
-	for (i = 1; i < vrt_nthreads(); i++)
-		if (i != vrt_self() && !vrt_done(i)) vrt_freeze(i, 1);
-	solo_on = 1;
-	solo_s0 = vrt_mysteps(); solo_r0 = vrt_myrelax();
-}
-
-static void solo_end(int kind)
-{
-	int i;
-	unsigned long ds, dr;
-	if (!solo_on) return;
-	ds = vrt_mysteps() - solo_s0; dr = vrt_myrelax() - solo_r0;
-	vrt_log("SOLO %s steps=%lu relax=%lu", kname[kind], ds, dr);
-	solo_runs++;
-	if (ds > solo_max[kind]) solo_max[kind] = ds;
-	if (ds > kbound[kind] || dr)
-		vrt_fail("solo", "%s run solo (all other threads frozen) took %lu own steps (bound %lu) and %lu spin hints",
-			 kname[kind], ds, kbound[kind], dr);
-	for (i = 1; i < vrt_nthreads(); i++)
-		if (i != vrt_self()) vrt_freeze(i, 0);
-	solo_on = 0;
-}
-
 /* ---- operations --------------------------------------------------------------------------- */
 static void do_push(void)
 {
@@ -112,13 +82,13 @@ static void do_push(void)
 	if (k < 0) { vrt_point(); return; }
 	cds_wfs_node_init(&nodes[k].n);
 	vrt_log("INIT n%d", k);
-	solo_begin();
+	c17_op_begin(K_PUSH);
 	vrt_log("CALL push n%d", k);
 	inflight_push++; push_activity++;
 	r = cds_wfs_push(&stk, &nodes[k].n);
 	inflight_push--; push_activity++;
 	vrt_log("RET push %d", r);
-	solo_end(K_PUSH);
+	c17_op_end(K_PUSH);
 }
 
 static void check_wouldblock(int infl0, unsigned long act0, const char *what)
@@ -140,7 +110,7 @@ static void do_pop(int variant)
 	} else {
 		int st = variant & 1;
 		nb = (variant >> 1) & 1;
-		if (nb) solo_begin();
+		if (nb) c17_op_begin(K_POP_NB);
 		infl0 = inflight_push; act0 = push_activity;
 		vrt_log("CALL pop blocking=%d state=%d locked=0", !nb, st);
 		if (nb) n = st ? __cds_wfs_pop_with_state_nonblocking(&stk, &state) : __cds_wfs_pop_nonblocking(&stk);
@@ -148,7 +118,7 @@ static void do_pop(int variant)
 	}
 	if (state >= 0) vrt_log("RET pop %s %d", ntok(n), state);
 	else vrt_log("RET pop %s -", ntok(n));
-	if (nb) solo_end(K_POP_NB);
+	if (nb) c17_op_end(K_POP_NB);
 	if (n == CDS_WFS_WOULDBLOCK) check_wouldblock(infl0, act0, "pop_nonblocking");
 	else if (n) free_node(n);
 }
@@ -160,12 +130,12 @@ static void iterate(struct cds_wfs_head *head)
 		int b = vrt_rand() % 2, infl0, tries = 0;
 		unsigned long act0;
 		for (;;) {
-			if (!b) solo_begin();
+			if (!b) c17_op_begin(K_NEXT_NB);
 			infl0 = inflight_push; act0 = push_activity;
 			vrt_log("CALL next n%d blocking=%d", nid(node), b);
 			nx = b ? cds_wfs_next_blocking(node) : cds_wfs_next_nonblocking(node);
 			vrt_log("RET next %s", ntok(nx));
-			if (!b) solo_end(K_NEXT_NB);
+			if (!b) c17_op_end(K_NEXT_NB);
 			if (nx != CDS_WFS_WOULDBLOCK) break;
 			check_wouldblock(infl0, act0, "next_nonblocking");
 			if (++tries > 3) b = 1;
@@ -180,22 +150,22 @@ static void iterate(struct cds_wfs_head *head)
 static void do_pop_all(int locked)
 {
 	struct cds_wfs_head *h;
-	if (!locked) solo_begin();
+	if (!locked) c17_op_begin(K_POPALL);
 	vrt_log("CALL pop_all locked=%d", locked);
 	h = locked ? cds_wfs_pop_all_blocking(&stk) : __cds_wfs_pop_all(&stk);
 	vrt_log("RET pop_all %s", ntok(h));
-	if (!locked) solo_end(K_POPALL);
+	if (!locked) c17_op_end(K_POPALL);
 	if (h) iterate(h);
 }
 
 static void do_empty(void)
 {
 	bool e;
-	solo_begin();
+	c17_op_begin(K_EMPTY);
 	vrt_log("CALL empty");
 	e = cds_wfs_empty(&stk);
 	vrt_log("RET empty %d", e);
-	solo_end(K_EMPTY);
+	c17_op_end(K_EMPTY);
 }
 
 static void xlock(void) { vrt_log("CALL lock"); cds_wfs_pop_lock(&stk); vrt_log("RET lock"); }
@@ -252,6 +222,7 @@ static void *consumer(void *arg)
 	if (scheme == SCH_SINGLE) { do_pop(2); do_pop_all(0); do_pop(3); }
 	else { do_pop(1); do_pop_all(1); do_pop(0); }
 	do_empty();
+	c17_stop = 1;
 	return NULL;
 }
 
@@ -277,6 +248,7 @@ int main(int argc, char **argv)
 	cds_wfs_init(&stk);
 	vrt_name(&stk.head, sizeof(stk.head), "head");
 	vrt_name(&stk.lock, sizeof(stk.lock), "lock");
+	for (i = 0; i < OR_MAXT; i++) c17_kind[i] = -1;
 	for (i = 0; i < nnodes; i++) {
 		vrt_name(&nodes[i].n, sizeof(nodes[i].n), "n%d", i);
 		pool_free[i] = 1;
@@ -295,11 +267,13 @@ int main(int argc, char **argv)
 		tid = vrt_spawn("consumer", consumer, (void *)(long)i);
 	for (i = 0; i < npushers; i++)
 		tid = vrt_spawn("pusher", pusher, NULL);
+	if (c17) tid = vrt_spawn("freezer", c17_freezer, NULL);
 	(void)tid;
 	vrt_finish();
 	if (c17)
-		fprintf(stderr, "SOLO runs=%lu max push=%lu pop_all=%lu pop_nb=%lu next_nb=%lu empty=%lu\n", solo_runs,
-			solo_max[0], solo_max[1], solo_max[2], solo_max[3], solo_max[4]);
+		fprintf(stderr, "SOLO self=%lu mid=%lu max push=%lu/%lu pop_all=%lu/%lu pop_nb=%lu/%lu next_nb=%lu/%lu empty=%lu/%lu\n",
+			c17_runs[0], c17_runs[1], c17_max[0], c17_midmax[0], c17_max[1], c17_midmax[1], c17_max[2], c17_midmax[2],
+			c17_max[3], c17_midmax[3], c17_max[4], c17_midmax[4]);
 	if (trace_path) {
 		memset(&oc, 0, sizeof(oc));
 		oc.end_tok = "1"; oc.push_is_cas = 0; oc.scheme = scheme; oc.consumer = drainer_tid; oc.nnodes = nnodes;
